@@ -142,6 +142,18 @@ CLAIMS["C16"] = dict(
     technique="algebraic GVN with symbolic unit direction / unit normal and exponents in Q(gamma) + access-relation decoding of call sites + registry AST query",
     ref="DESIGN.md section 4 C16")
 
+CLAIMS["C13"] = dict(
+    text=("Two code-shape clauses that are jointly equivalent to the statement in exact arithmetic. Units: a units-of-measure "
+          "type system types every kernel on the solution path (all fluxes, boundary conditions, time steps, conversions, "
+          "variables, sources; limiters with a rigid type variable) - homogeneous code commutes with any rescaling of the base "
+          "units; the limiter regularisation constants are reported as known findings. Reflection: all 1D fluxes mirror-"
+          "symmetric (GVN), all 1D boundary conditions equivariant with a symbolic unit direction (GVN), and the decoded "
+          "relations of gradients, every reconstruction (right statement = mirror twin of the left one, limiter argument order "
+          "included), flux balance, time-step argument and the two boundary call sites are closed under c -> n-1-c, L <-> R, "
+          "odd quantities negated. Not decided: 'bit for bit for powers of two' (a property of values)."),
+    technique="units-of-measure type inference + algebraic GVN (mirror identities) + access-relation twin analysis",
+    ref="DESIGN.md section 4 C13")
+
 NA_REASONS = {
     "C09": ("runtime invariant of trajectories (range and total variation after every step for all data); its "
             "code-shape premises are owned and decided by C02, C05, C11, C12, C18; the remaining step (flux "
